@@ -98,6 +98,8 @@ def variants(rng, da, ordered):
     import xarray as xr
     out = []
     out.append(("transpose", da.transpose("lon", "time", "lat")))
+    if da.sizes["lat"] > 1:
+        out.append(("reversed-latitudes", da.isel(lat=slice(None, None, -1))))
     out.append(("transpose2", da.transpose("lat", "lon", "time")))
     pl = rng.permutation(da.sizes["lon"])
     pla = rng.permutation(da.sizes["lat"])
@@ -124,6 +126,15 @@ def run_single(ctx, rng, N):
         da = base_data(rng, n, nlat, nlon, cplx=sp.cplx, red=sp.ordered)
         k = 2
         kw = {}
+        if name == "EOF" and (i // len(names)) % 3 == 2:
+            # a field that is nearly antisymmetric under a reflection: the southern row is the mirrored northern row with the opposite sign and
+            # 1e-7 larger. The largest positive and the largest negative loading of every mode differ by 1e-7 - far above rounding, so the sign
+            # convention is well defined - and sit at different places of the feature order in different layouts
+            nlon = max(nlon, 3)
+            da = base_data(rng, n, 2, nlon, cplx=False, red=False)
+            north = da.isel(lat=0).values
+            da.values[:, 1, :] = -north[:, ::-1] * (1.0 + 1e-7)
+            ctx.dist["c07:near-antisymmetric-field"] += 1
         if name in ("EOF", "ComplexEOF", "POP") and (i // len(names)) % 2 == 1:
             # features in very different units (pressure in Pa next to a precipitation flux), standardised: whatever a feature shares
             # its container with must not matter
